@@ -136,36 +136,48 @@ def one_case(rng, quick):
         proc._n_todo = 1
         with contextlib.redirect_stdout(io.StringIO()):
             proc.tile(pio, parallel=1)
-    orig_lock = filelock.SoftFileLock
+    orig_locks = {nm: getattr(filelock, nm) for nm in ("SoftFileLock", "FileLock", "UnixFileLock")
+                  if isinstance(getattr(filelock, nm, None), type)}
     orig_read = PyramidIO.read_image
     orig_write = PyramidIO.write_image
     errors = []
     attempts = []
 
     def run(sched):
-        class SchedLock(orig_lock):
-            def acquire(self, *a, **kw):
-                while True:
-                    lf = self.lock_file
-                    sched.custom_sync("TryAcq", stutter=lambda: os.path.exists(lf))
-                    try:
-                        r = orig_lock.acquire(self, blocking=False)
-                        attempts.append((sched.me().name, True))
-                        return r
-                    except filelock.Timeout:
-                        attempts.append((sched.me().name, False))
+        def sched_lock_class(orig):
+            """Scheduler-driven variant of one of filelock's lock classes (whichever flavour
+            update_image picks, its acquire becomes a sequence of single non-blocking attempts)."""
+            class SchedLock(orig):
+                def acquire(self, *a, **kw):
+                    while True:
+                        lf = self.lock_file
+                        sched.custom_sync("TryAcq", stutter=lambda: os.path.exists(lf))
+                        try:
+                            r = orig.acquire(self, blocking=False)
+                            attempts.append((sched.me().name, True))
+                            return r
+                        except filelock.Timeout:
+                            attempts.append((sched.me().name, False))
 
-            def release(self, force=False):
-                # __del__ calls release() again on an already released lock: no sync point then
-                if self.is_locked and sched.me() is not sched.main and not sched.aborted:
-                    sched.custom_sync("Release")
-                    r = orig_lock.release(self, force)
-                    # one more sync point after the release, so that whatever the code does
-                    # next (nothing, in update_image) can interleave with the next holder;
-                    # "Leave" steps are not part of the model and are dropped from the trace
-                    sched.custom_sync("Leave")
-                    return r
-                return orig_lock.release(self, force)
+                def release(self, force=False):
+                    # __del__ calls release() again on an already released lock: no sync point then
+                    if self.is_locked and sched.me() is not sched.main and not sched.aborted:
+                        sched.custom_sync("Release")
+                        r = orig.release(self, force)
+                        # one more sync point after the release, so that whatever the code does
+                        # next (nothing, in update_image) can interleave with the next holder;
+                        # "Leave" steps are not part of the model and are dropped from the trace
+                        sched.custom_sync("Leave")
+                        return r
+                    return orig.release(self, force)
+            SchedLock.__name__ = "Sched" + orig.__name__
+            return SchedLock
+
+        wrapped = {}
+        for nm, cls in orig_locks.items():
+            if cls not in wrapped:
+                wrapped[cls] = sched_lock_class(cls)
+            setattr(filelock, nm, wrapped[cls])
 
         def read_image(self, p, *a, **kw):
             if sched.me() is not sched.main:
@@ -184,7 +196,6 @@ def one_case(rng, quick):
                 sched.custom_sync("WEnd")
             return orig_write(self, p, image, *a, **kw)
 
-        filelock.SoftFileLock = SchedLock
         PyramidIO.read_image = read_image
         PyramidIO.write_image = write_image
 
@@ -227,7 +238,8 @@ def one_case(rng, quick):
         with contextlib.redirect_stdout(sink), contextlib.redirect_stderr(sink):
             outcome, val, S = detsched.run_under((), run, chooser=chooser, pass_sched=True)
     finally:
-        filelock.SoftFileLock = orig_lock
+        for nm, cls in orig_locks.items():
+            setattr(filelock, nm, cls)
         PyramidIO.read_image = orig_read
         PyramidIO.write_image = orig_write
     # drop the main actor's Join steps from the trace (not part of the lock protocol)
